@@ -681,7 +681,10 @@ static int part_b(void)
 	/* address prefixes that are indented, on the first and on later lines, after blank lines */
 	{
 		static const char *ifmt[] = { " 10: %s\n", "\t0fA0:%s %s\n", "%s\n 10: %s\n", "%s\n\t0fA0: %s\n", "10: %s\n  20: %s\n", "%s\n\n 10: %s\n",
-					      "10: %s\n \t 20:%s\n", " 10: %s\n 20: %s\n", "%s\n \n 10: 0x%s\n" };
+					      "10: %s\n \t 20:%s\n", " 10: %s\n 20: %s\n", "%s\n \n 10: 0x%s\n",
+					      /* addresses of every width up to 24 digits (64-bit addresses are 16; nothing limits the width) */
+					      "0000000000400000: %s %s\n", "00000000004000000: %s\n%s\n", "000000000000000000400000: %s\n0123456789abcdefA: %s\n",
+					      "%s\n  0000000000400010: %s\n", "0123456789abcdef0123: 0x%s %s\n" };
 		static const char *iv[] = { "0a", "F9", "73" };
 		int k = 0;
 		for (unsigned f = 0; f < sizeof(ifmt) / sizeof(ifmt[0]); f++)
